@@ -144,7 +144,7 @@ func (v *recValidator) Validate(i any) error {
 }
 
 func runC18(e *Env) {
-	e.Rule = "decision table: 9 methods x content types {form-urlencoded, multipart/form-data with boundary, application/json, text/json, application/xml, text/xml - each with and without '; charset=utf-8' - text/plain, application/yaml, application/octet-stream, application/form-data, empty}; every request carries DIFFERENT data in the query string and in the body (and a key that exists only in the query), so the bound value reveals the source. Round trip: values of representative structs (ints incl. negative/large, strings with unicode, separators, quotes, angle brackets, blanks, bools, []string, []int) encoded by independent encoders (url.Values.Encode, mime/multipart, encoding/json, encoding/xml) and bound back through binding.Auto, Context.Bind/AutoBind, ShouldBind(JSON|XML|Form|Query), BindJSON/BindXML/BindForm: deep equality. Malformed: random byte strings and truncations/mutations of valid bodies under every content type: error or success, never a panic. Sequences: histories of 3..8 binds through different binders (query, form, multipart, header, JSON, XML) on a struct whose field names differ per source, incl. bodies whose reader fails mid-way; every bind must behave as if it were the first one. Validation: a recording validator with a predicate, the stock validator with validate tags, and the validator disabled. Single-threaded (the validator is a package global). Non-trivial: a body-method request, a string with separators/unicode, a malformed body, or a validator decision; distinct by case. The decision table is repeated on requests on which Request.FormValue was called before; slices contain empty elements; a stock-validator mode with rules only on the element struct of a slice; a quarter of the stock-validator binds use a **struct or *interface{*struct} target (success implies the struct is valid)."
+	e.Rule = "decision table: 9 methods x content types {form-urlencoded, multipart/form-data with boundary, application/json, text/json, application/xml, text/xml - each with and without '; charset=utf-8' - text/plain, application/yaml, application/octet-stream, application/form-data, empty}; every request carries DIFFERENT data in the query string and in the body (and a key that exists only in the query), so the bound value reveals the source. Round trip: values of representative structs (ints incl. negative/large, strings with unicode, separators, quotes, angle brackets, blanks, bools, []string, []int) encoded by independent encoders (url.Values.Encode, mime/multipart, encoding/json, encoding/xml) and bound back through binding.Auto, Context.Bind/AutoBind, ShouldBind(JSON|XML|Form|Query), BindJSON/BindXML/BindForm: deep equality. Malformed: random byte strings and truncations/mutations of valid bodies under every content type: error or success, never a panic. Sequences: histories of 3..8 binds through different binders (query, form, multipart, header, JSON, XML) on a struct whose field names differ per source, incl. bodies whose reader fails mid-way; every bind must behave as if it were the first one. Validation: a recording validator with a predicate, the stock validator with validate tags, and the validator disabled. Single-threaded (the validator is a package global). Non-trivial: a body-method request, a string with separators/unicode, a malformed body, or a validator decision; distinct by case. The decision table is repeated on requests on which Request.FormValue was called before; slices contain empty elements; a stock-validator mode with rules only on the element struct of a slice; markup declarations of any length (<!x>, <!>, <!DOCTYPE ...>) in front of XML documents; a quarter of the stock-validator binds use a **struct or *interface{*struct} target (success implies the struct is valid)."
 	e.Assumptions = []string{
 		"XML strings are restricted to characters XML can carry (no \\r); JSON strings are valid UTF-8",
 		"every bind uses a fresh request (binding the same parsed form twice is outside the statement)",
@@ -462,7 +462,7 @@ func runC18(e *Env) {
 			} else if len(body) > 0 && (ct.Kind == "json" || ct.Kind == "xml") && chance(r, 1, 4) {
 				// something in front of a complete document: white space, a byte order mark, an XML declaration or comment
 				// are fine, anything else is not one document
-				head := pick(r, []string{"garbage", "{\"age\":2}", "\n\n", " \t", "<!-- leading comment -->", "<?xml version=\"1.0\"?>\n", "\xef\xbb\xbf", "0", "}}}}::::", "garbage<<<", "x", "\x00"})
+				head := pick(r, []string{"garbage", "{\"age\":2}", "\n\n", " \t", "<!-- leading comment -->", "<?xml version=\"1.0\"?>\n", "\xef\xbb\xbf", "0", "}}}}::::", "garbage<<<", "x", "\x00", "<!x>", "<!>", "<!a b>", "<!DOC>", "<!xy>\n", "<!DOCTYPE bindA>\n", "<!ELEMENT a ANY>", "<?x?>", "<!---->"})
 				body = append([]byte(head), body...)
 				t.Count("malformed.head_plus_document", 1)
 			} else if len(body) > 0 {
